@@ -632,7 +632,7 @@ type c16Poll struct {
 
 func c16RunPoll(c c16Poll) (sig string, err error) {
 	defer vf.Recover(&sig, &err)
-	if c.Page < 0xc0 || c.Page > 0xdf || c.Polls < 0 || c.Polls > 70 || c.Nops < 0 || c.Nops > 400 || c.HL < 0xfe00 || c.HL > 0xfeff {
+	if ((c.Page < 0xc0 || c.Page > 0xdf) && (c.Page < 0x80 || c.Page > 0x9f)) || c.Polls < 0 || c.Polls > 70 || c.Nops < 0 || c.Nops > 400 || c.HL < 0xfe00 || c.HL > 0xfeff {
 		return "invalid-case", fmt.Errorf("case outside the domain")
 	}
 	rom := machine.MakeROM(0, 0, 0)
@@ -651,13 +651,14 @@ func c16RunPoll(c c16Poll) (sig string, err error) {
 	m := machine.New(rom, nil, false)
 	m.I.Disable()
 	m.Mp.Write(0xffff, 0)
-	if !c.LCD {
-		m.Mp.Write(0xff40, 0x11)
-	}
+	m.Mp.Write(0xff40, 0x11) // the source is laid down with the LCD off (video RAM is then plain memory)
 	var src [160]uint8
 	for i := range src {
 		src[i] = c16Pattern(c.Seed, i)
 		m.Mp.Write(uint16(c.Page)<<8+uint16(i), src[i])
+	}
+	if c.LCD {
+		m.Mp.Write(0xff40, 0x91)
 	}
 	spin := uint16(0x150 + len(prog) - 2)
 	for i := 0; i < 4+3+c.Nops+5+2*c.Polls+200; i++ {
@@ -699,7 +700,11 @@ func init() {
 // TestC16 calls this after its own campaigns.
 func c16PollCampaign(c *vf.Collector) {
 	c.Rapid("cpu-polling", 3200, 100000, func(rt *rapid.T) {
-		cas := c16Poll{Page: uint8(rapid.IntRange(0xc0, 0xdf).Draw(rt, "page")), Seed: rapid.Uint16().Draw(rt, "seed"), Nops: rapid.IntRange(0, 240).Draw(rt, "nops"),
+		page := rapid.IntRange(0xc0, 0xdf).Draw(rt, "page")
+		if rapid.IntRange(0, 2).Draw(rt, "from-video-ram") == 0 {
+			page = page - 0xc0 + 0x80 // the picture unit is drawing from the very memory the transfer reads
+		}
+		cas := c16Poll{Page: uint8(page), Seed: rapid.Uint16().Draw(rt, "seed"), Nops: rapid.IntRange(0, 240).Draw(rt, "nops"),
 			Polls: rapid.IntRange(0, 70).Draw(rt, "polls"), HL: uint16(rapid.IntRange(0xfe00, 0xfeff).Draw(rt, "hl")), LCD: rapid.IntRange(0, 4).Draw(rt, "lcd") != 0}
 		class := "cpu-polling-lcd-off"
 		if cas.LCD {
